@@ -278,7 +278,12 @@ def drive(prop, tier, seed, jobs=None, replay=None):
                 h["example"] = v["witnesses"][0]
         else:
             new.append((key, v))
-    os.makedirs(os.path.join(VERIF, "replays", prop), exist_ok=True)
+    rdir = os.path.join(VERIF, "replays", prop)
+    os.makedirs(rdir, exist_ok=True)
+    if not replay:
+        for fn in os.listdir(rdir):
+            if fn.endswith(".json"):
+                os.remove(os.path.join(rdir, fn))
     lines = []
     for hid, h in hit.items():
         ex = h["example"] or {}
